@@ -71,10 +71,10 @@ pub struct CapiCase {
 
 pub struct CapiEngine;
 
-const FACTS: &[&str] = &["right(\"file1\", \"read\")", "user(1)", "resource(\"file2\")", "list([1, 2])", "right(", "user($x)", ""];
-const RULES: &[&str] = &["can($f) <- right($f, \"read\")", "ok($u) <- user($u), $u > 0", "can($f) <- ", "bad($x) <- user($y)"];
-const CHECKS: &[&str] = &["check if user($u)", "check if resource(\"file1\")", "check all user($u), $u < 10", "reject if user(2)", "check if", "check if right($f, $r) or user(1)"];
-const POLICIES: &[&str] = &["allow if true", "deny if user(1)", "allow if right($f, \"read\")", "allow", "deny if false"];
+const FACTS: &[&str] = &["right(\"file1\", \"read\")", "user(1)", "resource(\"file2\")", "list([1, 2])", "right(", "user($x)", "", "user({who})", "right(\"file1\", {op})"];
+const RULES: &[&str] = &["can($f) <- right($f, \"read\")", "ok($u) <- user($u), $u > 0", "can($f) <- ", "bad($x) <- user($y)", "can($f) <- right($f, {op})", "can({f}) <- user(1)"];
+const CHECKS: &[&str] = &["check if user($u)", "check if resource(\"file1\")", "check all user($u), $u < 10", "reject if user(2)", "check if", "check if right($f, $r) or user(1)", "check if user({who})", "check if user(1) trusting {key}"];
+const POLICIES: &[&str] = &["allow if true", "deny if user(1)", "allow if right($f, \"read\")", "allow", "deny if false", "allow if user({who})", "deny if user(1) trusting {key}"];
 
 // ---------------------------------------------------------------------------------------------
 // turn scheduler: caller threads execute one job at a time, on demand
